@@ -24,19 +24,22 @@ Core Lean only.
 
 namespace VaxisModel.Model.ParserPools
 
-/-- The heap: array id = index; an array = its cells up to capacity. -/
+/-- The heap of `[]rune` / `[]int` arrays: array id = index; an array = its cells up to capacity.
+    (The functions below are generic in the cell type: the `[][]int` arrays of `csi.Parameters`
+    have slice headers as cells.) -/
 abbrev Heap := List (List Nat)
 
 /-- Cells of array `a` (an id that was never allocated has no cells). -/
-def cells (h : Heap) (a : Nat) : List Nat := h[a]?.getD []
+def cells {α : Type} (h : List (List α)) (a : Nat) : List α := h[a]?.getD []
 
 /-- `arr[i] = v` (in place). -/
-def write (h : Heap) (a i v : Nat) : Heap := h.set a ((cells h a).set i v)
+def write {α : Type} (h : List (List α)) (a i : Nat) (v : α) : List (List α) :=
+  h.set a ((cells h a).set i v)
 
-/-- The new array of a growing `append(s, r)`: cells `[0,len)` copied, `r` at `len`, zeroed up to the
-    new capacity `newcap` (≥ len+1, checked by the step). -/
-def grow (old : List Nat) (len r newcap : Nat) : List Nat :=
-  old.take len ++ [r] ++ List.replicate (newcap - (len + 1)) 0
+/-- The new array of a growing `append(s, r)`: cells `[0,len)` copied, `r` at `len`, zero values up
+    to the new capacity `newcap` (≥ len+1, checked by the step). -/
+def grow {α : Type} [Inhabited α] (old : List α) (len : Nat) (r : α) (newcap : Nat) : List α :=
+  old.take len ++ [r] ++ List.replicate (newcap - (len + 1)) default
 
 /-- A Go slice header over array `arr`, offset 0. -/
 structure Slice where
